@@ -82,8 +82,8 @@ def gen(rng, tier):
                 "starts": [i for i in range(ns) if rng.chance(0.4)] or [0],
                 "finals": [i for i in range(ns) if rng.chance(0.4)]}
     if k == "text":
-        VAR = ["S", "A", "x", "yVar", "B1", "z"]
-        TER = ["a", "b", "C", "Dog", "c1", "X"]
+        VAR = ["S", "A", "x", "yVar", "B1", "z", "\u00c9t\u00e9", "\u03a9m"]      # incl. non-ASCII capitals
+        TER = ["a", "b", "C", "Dog", "c1", "X", "\u00c9a", "\u00e9"]
         vs = ["S"] + rng.sample(VAR[1:], rng.randint(0, 3))
         ts = rng.sample(TER, rng.randint(1, 3))
         prods = []
